@@ -586,6 +586,13 @@ func main() {
 		lib.Finish(f, res)
 	}
 
+	// (developer switch: C01_ONLY=migrated runs the round-5 migration families alone)
+	if os.Getenv("C01_ONLY") == "migrated" {
+		legacyPurgeVariant = legacyPurges()
+		runMigratedFamilies(f, res, drv, r.Fork(10_000_000))
+		lib.Finish(f, res)
+	}
+
 	// 0. juno's hash primitives against the independent implementations (boundary felts × boundary felts)
 	checkPrimitives(f, res, r)
 	if f.Out != "" {
@@ -707,6 +714,8 @@ func main() {
 		scs = append(scs, genManyContractsCase(r.Fork(uint64(9_000_000+i))))
 	}
 	checkStateCases(f, res, drv, scs, "state-many-contracts")
+	// 6. a database produced by an upgrade: Contract records written by the head-state migration (round 5)
+	runMigratedFamilies(f, res, drv, r.Fork(10_000_000))
 	lib.Finish(f, res)
 }
 
@@ -747,6 +756,14 @@ func runReplay(f lib.Flags, res *lib.Result, drv *lib.Driver) {
 		oldFixedVariant = [2]bool{oldRootFixed(true), oldRootFixed(false)}
 		finaliseFixedVariant = [2]bool{finaliseKeepsOldRoot(true), finaliseKeepsOldRoot(false)}
 		checkSplitMerged(f, res, drv, []*StateCase{&sc})
+	case "migrated":
+		var mc MigCase
+		if err := json.Unmarshal(body.State, &mc); err != nil {
+			res.Fatalf("replay: %v", err)
+			return
+		}
+		legacyPurgeVariant = legacyPurges()
+		checkMigrated(f, res, drv, []*MigCase{&mc}, "replay")
 	case "ptr":
 		checkPointerReuse(f, res, drv, lib.NewRNG(f.Seed).Fork(8_000_000))
 	case "version":
